@@ -314,7 +314,7 @@ fn run_case(c: &Case, rep: &mut Report, seen: &mut BTreeSet<Hash>) {
                             } else {
                                 fields.join("+")
                             };
-                            rep.violate(&format!("trace-left/{}/{}", sig, kprefix), format!("rejected block {} ({:?}) changed state: {:?}", w.blocks[ci].label, res, d), json!({"ctx": ctx, "trace": trace, "result": format!("{:?}", res)}));
+                            rep.violate_inst(&format!("trace-left/{}/{}", sig, kprefix), &format!("trace-left/{}/{}", sig, kprefix), format!("rejected block {} ({:?}) changed state: {:?}", w.blocks[ci].label, res, d), json!({"ctx": ctx, "trace": trace, "result": format!("{:?}", res)}));
                             rep.outcome("trace-left");
                         }
                         if res == AddRes::Invalid {
@@ -358,7 +358,7 @@ fn run_case(c: &Case, rep: &mut Report, seen: &mut BTreeSet<Hash>) {
             } else {
                 "inconsistent-after-reject"
             };
-            rep.violate(&format!("{}/{}/{}", cls, clause, kprefix), detail, json!({"ctx": ctx, "trace": trace}));
+            rep.violate_inst(&format!("{}/{}/{}", cls, clause, kprefix), &format!("{}/{}/{}", cls, clause, kprefix), detail, json!({"ctx": ctx, "trace": trace}));
         }
         let tip_hash = n.tip().1;
         let mut w2 = bt.w;
